@@ -138,3 +138,24 @@ Lemma ex_sync_sign_tie :
   map (fun e => snd (fst e)) (dump erased_ops (get_db w 1)) = [(-3)%Z] /\
   mags erased_ops (get_db w 0) = mags erased_ops (get_db w 1).
 Proof. vm_compute. repeat split; reflexivity. Qed.
+
+(** * whole-file export / import *)
+
+Lemma ex_ours_wf : wf_db ex_ours /\ forallb wf_export_rec (data ex_ours) = true /\ is_user_db ex_ours = true.
+Proof.
+  split; [|split; reflexivity]. repeat split; try reflexivity; repeat constructor; cbn; intuition discriminate.
+Qed.
+
+(** ours exported (a -> 3, b -> 1); their dictionary (a -> -5, c -> -1) imports the file:
+    the positive count resurrects the deleted a (max (-5) 3 = 3, its tick 4 kept), b is new
+    with tick 0, c is untouched *)
+Lemma ex_export_import_result :
+  match um_export erased_ops ex_ours with
+  | Some (f, n) =>
+      n = 2%nat /\
+      dump erased_ops (fst (um_import erased_ops ex_ver ex_u1 dict_name f ex_theirs)) =
+        [(ex_k1, 3%Z, 4%N); (ex_k2, 1%Z, 0%N); (ex_k3, (-1)%Z, 2%N)] /\
+      snd (um_import erased_ops ex_ver ex_u1 dict_name f ex_theirs) = Some 2%nat
+  | None => False
+  end.
+Proof. vm_compute. repeat split; reflexivity. Qed.
